@@ -88,6 +88,7 @@ inductive Stmt
   | choice (a b : Stmt)
   | tryFin (b f : Stmt)
   | tryCatch (b h : Stmt)      -- the handler may or may not match the exception
+  | tryAll (b h : Stmt)        -- the handler matches whatever the body can raise (declared in the translator's table)
 deriving Repr, DecidableEq
 
 abbrev Held := List Nat
@@ -120,6 +121,9 @@ def exec : Stmt → List Bool → Held → Exit × Held × List Bool
       let c := bit r.2.2
       if c.1 then exec hd c.2 r.2.1 else (r.1, r.2.1, c.2)
     else r
+  | .tryAll b hd, o, h =>
+    let r := exec b o h
+    if r.1 = .exc then exec hd r.2.2 r.2.1 else r
 
 def addNew (x : Exit × Held) (acc : List (Exit × Held)) : List (Exit × Held) :=
   if x ∈ acc then acc else x :: acc
@@ -141,6 +145,8 @@ def outcomes : Stmt → Held → List (Exit × Held)
     dedup ((outcomes b h).flatMap fun r => (outcomes f r.2).map fun q => (if q.1 = .norm then r.1 else q.1, q.2))
   | .tryCatch b hd, h =>
     dedup ((outcomes b h).flatMap fun r => if r.1 = .exc then r :: outcomes hd r.2 else [r])
+  | .tryAll b hd, h =>
+    dedup ((outcomes b h).flatMap fun r => if r.1 = .exc then outcomes hd r.2 else [r])
 
 /-- `with patch(r₁ … rₙ): body` as acquisitions, body under `finally`, releases in reverse order -/
 def withRes (rs : List Nat) (body : Stmt) : Stmt :=
